@@ -6,6 +6,7 @@ require (
 	github.com/cossacklabs/acra v0.0.0
 	github.com/cossacklabs/themis/gothemis v0.14.0
 	github.com/sirupsen/logrus v1.6.0
+	gopkg.in/yaml.v2 v2.4.0
 )
 
 require (
@@ -36,7 +37,6 @@ require (
 	google.golang.org/api v0.107.0 // indirect
 	google.golang.org/grpc v1.56.3 // indirect
 	google.golang.org/protobuf v1.33.0 // indirect
-	gopkg.in/yaml.v2 v2.4.0 // indirect
 )
 
 replace github.com/cossacklabs/acra => /repo
